@@ -96,4 +96,47 @@
             (buf, $m - left)
         }};
     }
+    /// every value of `FrameType` (type invariant: `Datagram(b)` has b in {0,1}, see `DatagramFrame::frame_type`)
+    #[allow(dead_code)]
+    pub(crate) fn any_frame_type() -> crate::frame::FrameType {
+        use crate::frame::{Ecn, Fin, FrameType, Layer, Len, Offset};
+        use crate::{net::Family, sid::Dir};
+        let k: u8 = kani::any();
+        let b: bool = kani::any();
+        let fam = if b { Family::V6 } else { Family::V4 };
+        let dir = if b { Dir::Uni } else { Dir::Bi };
+        match k {
+            0 => FrameType::Padding,
+            1 => FrameType::Ping,
+            2 => FrameType::Ack(if b { Ecn::Exist } else { Ecn::None }),
+            3 => FrameType::ResetStream,
+            4 => FrameType::StopSending,
+            5 => FrameType::Crypto,
+            6 => FrameType::NewToken,
+            7 => FrameType::Stream(
+                if kani::any() { Offset::NonZero } else { Offset::Zero },
+                if kani::any() { Len::Explicit } else { Len::Omit },
+                if kani::any() { Fin::Yes } else { Fin::No },
+            ),
+            8 => FrameType::MaxData,
+            9 => FrameType::MaxStreamData,
+            10 => FrameType::MaxStreams(dir),
+            11 => FrameType::DataBlocked,
+            12 => FrameType::StreamDataBlocked,
+            13 => FrameType::StreamsBlocked(dir),
+            14 => FrameType::NewConnectionId,
+            15 => FrameType::RetireConnectionId,
+            16 => FrameType::PathChallenge,
+            17 => FrameType::PathResponse,
+            18 => FrameType::ConnectionClose(if b { Layer::App } else { Layer::Quic }),
+            19 => FrameType::HandshakeDone,
+            20 => FrameType::Datagram(b as u8),
+            21 => FrameType::AddAddress(fam),
+            22 => FrameType::PunchMeNow(fam),
+            23 => FrameType::RemoveAddress,
+            24 => FrameType::PunchHello,
+            _ => FrameType::PunchDone,
+        }
+    }
+
     // ---- end of prelude -----------------------------------------------------------------------------------
